@@ -62,6 +62,10 @@ type PassSpec struct {
 	KillAll func(f *FuncInfo, n ast.Node) bool
 	// KillMatch: node n invalidates the fact with this id (checked for every current fact).
 	KillMatch func(f *FuncInfo, n ast.Node, id string) bool
+	// SkipDefer: calls inside defer statements neither establish nor kill facts (deferred unlocks).
+	SkipDefer bool
+	// NoInheritAsync: closures started with go/defer do not inherit the facts of their creation site (locks).
+	NoInheritAsync bool
 	// Interproc: entry facts of declared functions are the intersection over their static call sites.
 	Interproc bool
 
@@ -204,7 +208,9 @@ func (s *PassSpec) entryFacts(f *FuncInfo) FactSet {
 	for _, st := range sites {
 		r := s.Facts(st.f)
 		var fs FactSet
-		if r == nil {
+		if s.NoInheritAsync && isAsyncSite(st.ref.Node()) {
+			fs = FactSet{}
+		} else if r == nil {
 			fs = FactSet{}
 		} else {
 			fs = onlyPass(r.Before(st.ref))
@@ -317,9 +323,20 @@ func isBool(t types.Type) bool {
 	return ok && b.Kind() == types.Bool
 }
 
+func isAsyncSite(n ast.Node) bool {
+	switch n.(type) {
+	case *ast.GoStmt, *ast.DeferStmt:
+		return true
+	}
+	return false
+}
+
 func (s *PassSpec) node(f *FuncInfo, ref NodeRef, in FactSet) FactSet {
 	n := ref.Node()
 	info := f.Info()
+	if _, isDefer := n.(*ast.DeferStmt); isDefer && s.SkipDefer {
+		return in
+	}
 	// reassignment kills pending facts on the assigned objects
 	assigned := AssignedObjs(info, n)
 	for _, o := range assigned {
